@@ -12,15 +12,10 @@
 // See the License for the specific language governing permissions and
 // limitations under the License.
 
-use super::{separator, AttrBody, EventOrEnd, IncrementalReconParser, ItemsKind, RecBody, Span};
+use super::{EventOrEnd, IncrementalReconParser, ParseState, Span};
 use crate::hasher::HashError;
-use nom::branch::alt;
-use nom::bytes::complete::is_not;
-use nom::character::streaming as char_str;
-use nom::combinator::{map, opt};
 use nom::error::ErrorKind;
-use nom::sequence::preceded;
-use nom::{Finish, IResult, Parser};
+use nom::{Finish, Parser};
 use smallvec::SmallVec;
 use std::hash::{Hash, Hasher};
 use swimos_form::read::ReadEvent;
@@ -122,70 +117,63 @@ impl Default for HashParser {
     }
 }
 
-/// State showing the validation progress of whether the
-/// current attribute body is an implicit record or not.
-#[derive(Debug, Clone, Copy)]
-enum ValidationState {
-    /// Validation is still in progress and we are at the
-    /// top level in the body of an attribute.
-    Top,
-    /// Validation is still in progress and we are
-    /// N levels deep inside nested records or attributes.
-    Nested(usize),
-    /// Validation completed with a result.
-    Done(bool),
-}
-
-impl ValidationState {
-    fn increment(level: usize) -> ValidationState {
-        ValidationState::Nested(level + 1)
-    }
-
-    fn decrement(level: usize) -> ValidationState {
-        if level == 1 {
-            ValidationState::Top
-        } else {
-            ValidationState::Nested(level - 1)
-        }
-    }
-
-    fn finish(result: bool) -> ValidationState {
-        ValidationState::Done(result)
-    }
-}
-
+/// Determines whether the body of an attribute, starting at `input` (just after the opening
+/// parenthesis), is an implicit record: a body with a slot or with more than one item. The body
+/// is read ahead with the parser itself so that new lines, separators and the contents of string
+/// literals mean exactly what they will mean when the events are produced.
 fn is_implicit_record(input: Span) -> bool {
-    let mut result: IResult<Span<'_>, ValidationState> = Ok((input, ValidationState::Top));
+    let mut lookahead = IncrementalReconParser {
+        state: vec![ParseState::Init, ParseState::AttrBodyStartOrNl],
+        allow_comments: false,
+    };
+    let mut input = input;
+    // Nesting depth below the attribute body and the number of values seen at its top level.
+    let mut depth: usize = 0;
+    let mut values: usize = 0;
 
     loop {
-        result = match result {
-            Ok((rest, ValidationState::Top)) => preceded(
-                opt(is_not(",;:{()")),
-                alt((
-                    map(separator, |_| ValidationState::finish(true)),
-                    map(char_str::char(':'), |_| ValidationState::finish(true)),
-                    map(char_str::char('{'), |_| ValidationState::increment(0)),
-                    map(char_str::char('('), |_| ValidationState::increment(0)),
-                    map(char_str::char(AttrBody::end_delim()), |_| {
-                        ValidationState::finish(false)
-                    }),
-                )),
-            )(rest),
-            Ok((rest, ValidationState::Nested(level))) => preceded(
-                opt(is_not("{()}")),
-                alt((
-                    map(char_str::char('{'), |_| ValidationState::increment(level)),
-                    map(char_str::char('('), |_| ValidationState::increment(level)),
-                    map(char_str::char(AttrBody::end_delim()), |_| {
-                        ValidationState::decrement(level)
-                    }),
-                    map(char_str::char(RecBody::end_delim()), |_| {
-                        ValidationState::decrement(level)
-                    }),
-                )),
-            )(rest),
-            Ok((_, ValidationState::Done(result))) => return result,
+        let mut events = match lookahead.parse(input) {
+            Ok((remaining, events)) => {
+                input = remaining;
+                events
+            }
+            // The main loop will report the error.
             Err(_) => return false,
+        };
+
+        while let Some(event_or_end) = events.take_event() {
+            match event_or_end {
+                EventOrEnd::Event(event, _) => match event {
+                    ReadEvent::StartAttribute(_) => depth += 1,
+                    ReadEvent::EndAttribute => {
+                        if depth == 0 {
+                            return false;
+                        }
+                        depth -= 1;
+                    }
+                    ReadEvent::StartBody => {
+                        if depth == 0 {
+                            values += 1;
+                        }
+                        depth += 1;
+                    }
+                    ReadEvent::EndRecord => depth = depth.saturating_sub(1),
+                    ReadEvent::Slot => {
+                        if depth == 0 {
+                            return true;
+                        }
+                    }
+                    _ => {
+                        if depth == 0 {
+                            values += 1;
+                        }
+                    }
+                },
+                EventOrEnd::End => return false,
+            }
+            if values > 1 {
+                return true;
+            }
         }
     }
 }
